@@ -34,7 +34,9 @@
 (*   NewOut / DictOut / KvOut / JoinOut   new_empty_paragraph, from_dict,  *)
 (*              from_kvpairs (of one paragraph, possibly reversed; of two) *)
 (*   FileParts  new_empty_file() + append: paragraphs and separating lines *)
-(* Outcome = [e, w]: "ok" | "ValueError" | "Ambiguous" | "KeyError" and    *)
+(*   FaultOut   any of the setters / from_dict with a faulting argument    *)
+(* Outcome = [e, w]: "ok" | "ValueError" | "Ambiguous" | "KeyError" |      *)
+(* "CallerError" (the exception of a faulting caller-supplied object) and  *)
 (* the world afterwards.  kb selects the comment rule: "S" the statement,   *)
 (* "A" its other acceptable empty comment line, "K" the code as built      *)
 (* (open finding X17-blank-comment-line); "C" is the statement with a KEPT *)
@@ -179,6 +181,11 @@ JoinOut(w, p, q)   ==
    LET both == w.ps[p] \o w.ps[q] IN
    IF both = <<>> THEN Oc("ValueError", w)
    ELSE Oc("ok", Wd(Pick([w.ps EXCEPT ![p] = both], LAMBDA k : k # q), w.held, w.nh))
+
+\* SIZE_STRESS part 5: a call whose caller-supplied object faults while it is read -- the list of comment lines whose
+\* iteration raises after k lines (op "fset"), the mapping of from_dict whose items() raises after k items (op "fdict"):
+\* the CALLER's exception comes out and nothing has changed; the history goes on
+FaultOut(w) == Oc("CallerError", w)
 
 \* Deb822FileElement.new_empty_file() + append(p) for every non-empty paragraph, in order: the parts of dump()
 FileParts(w) == LET ne == SelectSeq(Idx(w.ps), LAMBDA p : w.ps[p] # <<>>)
